@@ -5,6 +5,7 @@
 -/
 import Driver.Util
 import SyModel.Generated.Prelude
+import SyModel.Generated.Code.TempFile
 open SyModel SyModel.Generated
 
 namespace Driver.Prelude
@@ -21,6 +22,8 @@ def handle : List String → Option String
   | ["prelude.file_stem", p] => (txt p).map fun p => outOpt (Rs.file_stem p)
   | ["prelude.extension", p] => (txt p).map fun p => outOpt (Rs.extension p)
   | ["prelude.join", p, n] => do let p ← txt p; let n ← txt n; pure (out (Rs.join p n))
+  | ["prelude.with_file_name", p, n] => do let p ← txt p; let n ← txt n; pure (out (Rs.with_file_name p n))
+  | ["prelude.working_file_path", p] => (txt p).map fun p => out (SyModel.Generated.TempFile.working_file_path p)
   | ["prelude.strip_prefix", p, b] => do
       let p ← txt p; let b ← txt b
       pure (match Rs.strip_prefix p b with | .ok r => "ok:" ++ out r | .error _ => "err")
